@@ -13,6 +13,7 @@ import (
 	"net/http"
 	"net/http/httptest"
 	"os"
+	"strconv"
 	"strings"
 	"sync"
 	"testing"
@@ -98,9 +99,19 @@ func (f fakeFull) Hijack() (net.Conn, *bufio.ReadWriter, error) {
 	return nil, nil, errors.New("no hijack")
 }
 func (f fakeFull) ReadFrom(r io.Reader) (int64, error) {
-	b, _ := io.ReadAll(r)
-	n, err := f.take(len(b))
+	c, _ := io.Copy(io.Discard, r) // count without keeping (bodies of gigabytes are among the cases)
+	n, err := f.take(int(c))
 	return int64(n), err
+}
+
+// zeros is an endless source of zero bytes; only a Reader (no WriteTo).
+type zeros struct{}
+
+func (zeros) Read(p []byte) (int, error) {
+	for i := range p {
+		p[i] = 0
+	}
+	return len(p), nil
 }
 
 // fakeNearFull has everything fakeFull has except ReadFrom.
@@ -144,6 +155,14 @@ func runProxy(c *PCase) (string, bool) {
 					rf.ReadFrom(bytes.NewReader(make([]byte, op.N)))
 				} else {
 					io.Copy(w, bytes.NewReader(make([]byte, op.N)))
+				}
+			case "rfhuge":
+				// a body of op.N bytes streamed from a source that never materialises it
+				src := io.LimitReader(zeros{}, int64(op.N))
+				if rf, ok := w.(io.ReaderFrom); ok {
+					rf.ReadFrom(src)
+				} else {
+					io.Copy(w, src)
 				}
 			case "rfplain":
 				// the body comes from a source that is nothing but an io.Reader (a pipe, a decompressor)
@@ -198,7 +217,7 @@ func runProxy(c *PCase) (string, bool) {
 			if !sent {
 				wantStatus, sent = op.N, true
 			}
-		case "w", "rf", "rfplain":
+		case "w", "rf", "rfplain", "rfhuge":
 			if op.K != "w" && op.N == 0 && c.Caps != "full" {
 				continue // io.Copy of an empty reader makes no call on the ResponseWriter
 			}
@@ -223,6 +242,26 @@ func runProxy(c *PCase) (string, bool) {
 		return fmt.Sprintf("underlying WriteHeader calls %v, want exactly [%d]", base.codes, wantStatus), nontrivial
 	}
 	return "", nontrivial
+}
+
+// TestProxyHuge: responses of more than 2 GiB (a download endpoint): the size reported is still the number
+// of bytes the underlying writer accepted. Needs a 64-bit int to express the expectation.
+func TestProxyHuge(t *testing.T) {
+	if strconv.IntSize < 64 {
+		t.Skip("int has 32 bits here: sizes above 2 GiB are not expressible")
+	}
+	huge := 1<<31 + 7
+	for _, caps := range []string{"basic", "full", "nearfull"} {
+		for _, ops := range [][]POp{{{"rfhuge", huge}}, {{"w", 5}, {"rfhuge", huge}}, {{"rfhuge", 1 << 30}, {"rfhuge", 1<<30 + 3}, {"w", 9}}} {
+			c := &PCase{Caps: caps, Accept: -1, Ops: ops}
+			msg, _ := runProxy(c)
+			b, _ := json.Marshal(c)
+			rec.Case(b, true, "proxy-huge", "caps:"+caps)
+			if msg != "" {
+				fail(t, "proxy", c, msg)
+			}
+		}
+	}
 }
 
 func TestProxyExhaustive(t *testing.T) {
